@@ -21,7 +21,7 @@ from ufl.sobolevspace import H1
 
 from ufv import elements as E
 from ufv import num as N
-from ufv.core import proved, undecided, violated
+from ufv.core import crash_text, deliberate, proved, undecided, violated
 from ufv.den import World, den
 from ufv.forms import check_form, form_parts, part_sum
 from ufv.opq import mesh
@@ -117,6 +117,8 @@ def build(run):
                         try:
                             blk = extract_blocks(F, bi, bj, replace_argument=repl) if arity == 2 else extract_blocks(F, bi, replace_argument=repl)
                         except (ValueError, RuntimeError) as ex:
+                            if not deliberate(ex):
+                                return violated(f"crash instead of a result or a refusal: {crash_text(ex)}", reproduced=True, backend="exec")
                             return proved("refused", sample=f"{tag}: {ex}"[:200])
                         mk = world(block=(bi, bj))
                         spec_mk = world(i=bi, j=bj)
